@@ -30,6 +30,8 @@ pub struct Opts {
     pub trace: bool,
     pub only: Option<usize>,
     pub from: usize,
+    /// engine C: explore tree-builder histories to this depth on the first job instead of parsing inputs
+    pub history: Option<usize>,
 }
 
 impl Opts {
@@ -51,6 +53,7 @@ impl Opts {
             trace: args.iter().any(|a| a == "--trace"),
             only: get("--only").and_then(|s| s.parse().ok()),
             from: get("--from").and_then(|s| s.parse().ok()).unwrap_or(0),
+            history: get("--history").and_then(|s| s.parse().ok()),
         }
     }
     fn has(&self, p: &str) -> bool {
@@ -565,6 +568,20 @@ impl<'a> Explorer<'a> {
 pub fn main_batch(jobs: &[Job]) {
     let opts = Opts::from_args();
     let out = std::io::stdout();
+    if let Some(depth) = opts.history {
+        let job = &jobs[opts.only.unwrap_or(0)];
+        let err = job
+            .subject
+            .rule_names()
+            .iter()
+            .position(|n| *n == "error")
+            .expect("error rule kind") as u16;
+        let mut b = job.subject.builder();
+        let stats = crate::history::explore(b.as_mut(), err, depth);
+        println!("{}", crate::history::report(&stats));
+        println!("DONE");
+        return;
+    }
     for (i, job) in jobs.iter().enumerate() {
         if let Some(only) = opts.only {
             if only != i {
